@@ -507,10 +507,30 @@ func verifier(e *env, fn *core.Fn) {
 			c.Undecidedf("R3.verify", key("version-le16"), fn.Decl.Pos(), "version bytes are not decoded with binary.<order>.Uint16")
 		}
 	case len(kinds["ver-lo"]) > 0 && len(kinds["ver-hi"]) > 0:
-		lo, okLo := v.shiftApplied(kinds["ver-lo"][0].e)
-		hi, okHi := v.shiftApplied(kinds["ver-hi"][0].e)
+		lo, lostLo, rLo, okLo := v.placement(kinds["ver-lo"][0].e)
+		hi, lostHi, rHi, okHi := v.placement(kinds["ver-hi"][0].e)
+		// a byte moved to the right before it is combined has lost bits for good. That is
+		// a verdict when this read is the only one of that byte (no second read can bring
+		// the dropped bits back) and the other byte is placed in a way this rule reads too.
+		sole := len(kinds["ver-lo"]) == 1 && len(kinds["ver-hi"]) == 1
 		if !okLo || !okHi {
 			c.Undecidedf("R3.verify", key("version-le16"), kinds["ver-lo"][0].e.Pos(), "cannot see how the two version bytes are assembled")
+		} else if lostLo > 0 || lostHi > 0 {
+			which, a, lost, r := "high", kinds["ver-hi"][0], lostHi, rHi
+			if lostHi == 0 {
+				which, a, lost, r = "low", kinds["ver-lo"][0], lostLo, rLo
+			}
+			if lost > 8 {
+				lost = 8
+			}
+			if !sole {
+				c.Undecidedf("R3.verify", key("version-le16"), a.e.Pos(), "the %s version byte %s is moved to the right in %s, but the byte is read more than once: cannot see that its bits are lost", which, a.desc, c.Src(r))
+			} else {
+				c.Check("R3.verify", key("version-le16"), r.Pos(), false,
+					fmt.Sprintf("the version is d[len-10] | d[len-9]<<8 (little-endian): each byte must reach the result whole, the low one at bit 0 and the high one at bit 8; %s moves the %s byte %s to the RIGHT and drops %d of its 8 bits before it is combined, so that byte no longer (fully) contributes: %s", c.Src(r), which, a.desc, lost, map[string]string{
+						"high": "trailer version bytes 06 01 (0x0106) are read as 6 and a version above the supported one is accepted",
+						"low":  "versions that differ in the dropped bits are read as the same number, so a version above the supported one is taken for a supported one and accepted"}[which]))
+			}
 		} else {
 			c.Check("R3.verify", key("version-le16"), kinds["ver-lo"][0].e.Pos(), lo == 0 && hi == 8,
 				fmt.Sprintf("the version is d[len-10] | d[len-9]<<8 (little-endian); found shifts %d and %d: versions are mis-read and supported payloads rejected", lo, hi))
